@@ -503,9 +503,20 @@ func equalsBoth(a, b qframe.QFrame) (bool, bool, string) {
 	return ab, ba, r1 + " / " + r2
 }
 
+var hostileColNames = []string{"a\tb", "q\"q", "nul\x00z", "\xff\xfe", "back\\s", "x\x1fy", "sp ace", "ü", "u\u2028v", "x\ny", "a,b", "\x7f", "é\xe9"}
+
 func TestC09(t *testing.T) {
 	rapid.Check(t, func(t *rapid.T) {
 		base := noInf(hx.GenTable(t, hx.TableOpt{MinCols: 1, MaxCols: 5, AllowDerived: true, Wide: true, Rows: hx.RowsUpTo(70)}))
+		// column names are data too for the writers: now and then a hostile (legal) one
+		if rapid.IntRange(0, 3).Draw(t, "hostilenames") == 0 {
+			names := rapid.Permutation(hostileColNames).Draw(t, "colnames")
+			for i := range base.Cols {
+				if i < len(names) && rapid.Bool().Draw(t, "renamecol") {
+					base.Cols[i].Name = names[i]
+				}
+			}
+		}
 		base = withIDLast(base)
 		d := hx.GenDerived(t, base, 5)
 		tab := d.Exp
